@@ -5,9 +5,10 @@ WT=/tmp/mut_$$
 git -C /repo worktree add -q --detach "$WT" HEAD || exit 3
 if ! git -C "$WT" apply "$PATCH"; then echo "PATCH FAILED"; git -C /repo worktree remove --force "$WT"; exit 3; fi
 for c in "$@"; do
-  out=$(VERIF_REPO=$WT VERIF_EVIDENCE_DIR=/tmp/mut_ev_$$ /verif/check $c --tier $TIER 2>&1)
+  out=$(VERIF_REPO=$WT VERIF_EVIDENCE_DIR=/tmp/mut_ev_$$ VERIF_REPLAY_DIR=/tmp/mut_ev_$$/rp /verif/check $c --tier $TIER 2>&1)
   rc=$?
   nv=$(echo "$out" | grep -c '^VIOLATION')
   echo "$c rc=$rc violations=$nv :: $(echo "$out" | tail -1)"
+  echo "$out" | grep '^HARNESS-ERROR' | cut -c1-1500
 done
 git -C /repo worktree remove --force "$WT"; rm -rf /tmp/mut_ev_$$
